@@ -11,6 +11,8 @@ def main():
     ap.add_argument('--replay')
     a = ap.parse_args()
     seed = int(os.environ.get('VERIF_SEED', '20260930'))
+    import logging
+    logging.getLogger().addHandler(logging.NullHandler())
     mod = importlib.import_module(f'tcv.props.{a.pid.lower()}')
     from .core import main_check
     sys.exit(main_check(mod.PROP, a.tier, seed, a.replay))
